@@ -94,6 +94,13 @@ def run_concrete(env, entry, cfg, inputs):
     ENV.reset(env, bitlength=n, resolution=r)
     k = Kit(env, dict(inputs), n, r)
     rt = env.rt
+    if rt is None:
+        out = dict(outcome="ok", result=None, exc=None, state=None, ref=None, kit=k, pub=[], priv=[], cons=[])
+        try:
+            out["result"] = entry.fn(k)
+        except Exception as ex:
+            out["outcome"], out["exc"] = "exc", ex
+        return out
     if cfg.get("ignore"):
         rt.ignore_errors(True)
     fn = lambda: entry.fn(k)
